@@ -170,9 +170,15 @@ def parse_T(line):
 
 # ------------------------------------------------------------------------------------------ phases
 def phase_forward(exe, rep, files, tier, label):
-    """offset + abbreviation at every transition -1/0/+1, footer-rule transitions 2038..2437, calendar grid 1900..2500"""
+    """offset + abbreviation at every transition -1/0/+1, footer-rule transitions 2038..2437, calendar grid 1900..2500, far grid ..9998"""
     grid_full = month_grid(1900, 2500, range(1, 13))
     grid_quarter = month_grid(1900, 2500, (1, 4, 7, 10))
+    # far future (the footer rule is periodic in the year, an implementation need not be): the 15th of four months in every
+    # 97th year up to 9998 (thorough: every 11th)
+    grid_far = []
+    for y in range(2600, 9999, 11 if tier == "thorough" else 97):
+        for m in (1, 4, 7, 10):
+            grid_far.append(int(datetime.datetime(y, m, 15, 12, tzinfo=UTC).timestamp()))
     # pass 1: footer rule transitions (instants chosen by the reference model inside tzmc; values come from the implementations)
     req = []
     for p in files:
@@ -197,6 +203,8 @@ def phase_forward(exe, rep, files, tier, label):
         for t in rule_instants[p]:
             inst.update((t - 1, t, t + 1))
         inst.update(grid_full if (tier == "thorough" or k % 6 == 0) else grid_quarter)
+        if z["footer"]:
+            inst.update(grid_far)
         inst = sorted(x for x in inst if -(2 ** 62) < x < 2 ** 62)
         req.append("F " + p)
         plan.append((p, None, z))
@@ -379,7 +387,8 @@ def phase_mktime(exe, rep, files, tier):
             rep.violation({"kind": "mktime", "file": p, "local": c}, "search succeeds", line)
             continue
         valid_part, _, skipped_part = line[2:].partition("|")
-        got = sorted(int(x) for x in valid_part.split(",") if x)
+        found = sorted((int(x.split(":")[0]), int(x.split(":")[1]), x.split(":")[2], int(x.split(":")[3])) for x in valid_part.split(",") if x)
+        got = [f[0] for f in found]
         got_skipped = sorted(tuple(int(v) for v in x.split(":")) for x in skipped_part.split(",") if x)
         cands = [c - o for o in offs]
         if nofoot and last is not None and any(u >= last - 1 for u in cands):
@@ -389,6 +398,14 @@ def phase_mktime(exe, rep, files, tier):
             exp = sorted(set(u for u, o in zip(cands, offs) if fwd(u) == o))
             if got != exp:
                 rep.violation({"kind": "mktime", "file": p, "local": c, "reference": name}, exp, got)
+            elif name == "zoneinfo":
+                # every found date-time carries the local time type the references report at its instant
+                for (u, o, n, d) in found:
+                    if DT_MIN <= u <= DT_MAX:
+                        zo, zn = zi_lookup(cur_zi, u)
+                        rep.add("mktime_type_comparisons")
+                        if (zo, zn) != (o, n):
+                            rep.violation({"kind": "mktime", "file": p, "local": c, "reference": "zoneinfo (type of the found result)"}, {"instant": u, "offset": zo, "abbr": zn}, {"instant": u, "offset": o, "abbr": n})
             elif not exp:
                 # skipped local time: the reported gap must sit where the reference changes offset
                 g = ref_gap(fwd, c, offs)
@@ -495,7 +512,12 @@ def replay(exe, path):
             gaps = (ref_gap(lambda u: zi_lookup(zi, u)[0], loc, offs), ref_gap(lambda u: glibc_lookup(u)[0], loc, offs))
             print("tz-rs:", r[1], "| zoneinfo valid:", exp_zi, "| glibc valid:", exp_gl, "| reference gaps:", gaps)
             valid_part, _, sk = r[1][2:].partition("|")
-            got = sorted(int(x) for x in valid_part.split(",") if x)
+            found = sorted((int(x.split(":")[0]), int(x.split(":")[1]), x.split(":")[2], int(x.split(":")[3])) for x in valid_part.split(",") if x)
+            got = [f[0] for f in found]
+            for (u, o, n, d) in found:
+                if DT_MIN <= u <= DT_MAX and zi_lookup(zi, u) != (o, n if n != "-" else None):
+                    print("found result carries", (o, n), "zoneinfo says", zi_lookup(zi, u))
+                    bad = True
             got_sk = sorted(tuple(int(q) for q in x.split(":")) for x in sk.split(",") if x)
             if got != exp_zi or got != exp_gl:
                 bad = True
